@@ -216,20 +216,30 @@ class Tracer:
         proj = [e for e in place_proj(p) if e != "*"]
         if proj:
             # precise case: field k of a local that is defined once by an aggregate -> operand k
-            ds0 = self.defs.get(l, [])
+            # ... also when the aggregates reach the local through whole-value moves (`_9 = move _4`, the return slot of an
+            # inlined helper assigned at several sites); a downcast (`as Some`) selects the aggregates of that variant only
             first = next((e for e in proj if isinstance(e, dict) and "f" in e), None)
             lead = proj[:proj.index(first)] if first is not None else []
-            if first is not None and ds0 and not (1 <= l <= self.body.argc) and depth < 40 and all(
-                    d[1] != "T" and "agg" in d[2]["r"] and d[2]["r"]["agg"] in ("tuple", "adt")
-                    and first["f"] < len(d[2]["r"]["ops"]) for d in ds0) \
-                    and all(isinstance(e, dict) and "dc" in e for e in lead):
-                rest = proj[proj.index(first) + 1:]
-                inner = set()
-                for d in ds0:
-                    inner |= self.sources(d[2]["r"]["ops"][first["f"]], depth + 1, seen)
-                if not rest:
-                    return inner
-                return {("field", b, _freeze(rest)) for b in inner}
+            aggs = self._agg_defs(l) if first is not None and depth < 40 and all(isinstance(e, dict) and "dc" in e for e in lead) else None
+            if aggs:
+                dc = lead[-1]["dc"] if lead else None
+                if dc is not None:
+                    aggs = [r_ for r_ in aggs if r_.get("agg") != "adt" or r_.get("vi") == dc]
+                if aggs and all(first["f"] < len(r_["ops"]) for r_ in aggs):
+                    rest = proj[proj.index(first) + 1:]
+                    inner = set()
+                    out_ = set()
+                    for r_ in aggs:
+                        o_ = r_["ops"][first["f"]]
+                        po_ = op_place(o_)
+                        if rest and po_ is not None:
+                            # keep resolving the remaining projection precisely (`(x as Some).0.1` of Some((a, b)) is b)
+                            out_ |= self.place_sources({"l": place_local(po_), "p": list(place_proj(po_)) + rest}, depth + 1, seen)
+                        else:
+                            inner |= self.sources(o_, depth + 1, seen)
+                    if not rest:
+                        return inner
+                    return out_ | {("field", b, _freeze(rest)) for b in inner}
             # value projected out of a local: describe as field of the local's sources
             base = self.place_sources(l, depth, seen)
             out = set()
@@ -275,6 +285,36 @@ class Tracer:
                     out.add(("other", bb, j))
         if 1 <= l <= self.body.argc:
             out.add(("arg", l))
+        return out
+
+    def _agg_defs(self, l, seen=None):
+        """the aggregate rvalues that define local l, through whole-value copies; None if any definition is something else"""
+        seen = seen if seen is not None else set()
+        if l in seen:
+            return []
+        seen.add(l)
+        if 1 <= l <= self.body.argc:
+            return None
+        ds = self.defs.get(l, [])
+        if not ds or len(seen) > 40:
+            return None
+        out = []
+        for d in ds:
+            if d[1] == "T":
+                return None
+            r = d[2]["r"]
+            if "agg" in r and r["agg"] in ("tuple", "adt", "closure"):
+                out.append(r)
+            elif set(r) <= {"use"}:
+                sp = op_place(r["use"])
+                if sp is None or place_proj(sp):
+                    return None
+                sub = self._agg_defs(place_local(sp), seen)
+                if sub is None:
+                    return None
+                out += sub
+            else:
+                return None
         return out
 
     def root_locals(self, op):
